@@ -2,6 +2,7 @@ package main
 
 import (
 	"fmt"
+	"go/constant"
 	"go/token"
 	"go/types"
 	"strings"
@@ -248,4 +249,272 @@ func syntheticBoundRule(r *Report, p *Prog, rule string) {
 	default:
 		r.ok(rule, key, p.pos(at), "the condition also reads the marker of a bound that MinVersion made")
 	}
+}
+
+// wildcardGuardRule (C12.l WILDCARD-GUARD): a wildcard version ("1.x", "*") is a
+// range, not a version; MatchVersion and MatchVersionPrerelease refuse one
+// before they match. Every way into the matcher has to: a call of
+// Constraint.match (the unguarded helper) or of Set.matchVersion from a method
+// of Constraint is dominated by an IsWildcard test of the same version that
+// leaves on the true side. Match(string) parsed the text and called the
+// helper directly, so a version list containing the string "1.x" (not a
+// version for node-semver) matched "*" and "<1.0.0".
+func wildcardGuardRule(r *Report, p *Prog, rule string) int {
+	n := 0
+	for _, f := range p.Funcs {
+		if f.Pkg == nil || f.Blocks == nil || f.Synthetic != "" || f.Pkg.Pkg.Path() != modPrefix+"semver" {
+			continue
+		}
+		if f.Signature.Recv() == nil || !strings.HasSuffix(f.Signature.Recv().Type().String(), "semver.Constraint") {
+			continue
+		}
+		if f.Name() == "match" {
+			continue // the helper itself; its callers are checked
+		}
+		per := 0
+		for _, b := range f.Blocks {
+			for _, in := range b.Instrs {
+				c, ok := in.(*ssa.Call)
+				if !ok {
+					continue
+				}
+				name := staticCalleeName(c)
+				var ver ssa.Value
+				switch name {
+				case "(*semver.Constraint).match":
+					ver = c.Common().Args[1]
+				case "(semver.Set).matchVersion":
+					ver = c.Common().Args[1]
+				default:
+					continue
+				}
+				n++
+				per++
+				key := fmt.Sprintf("%s: matcher call #%d is behind the wildcard guard", fnKey(f), per)
+				guarded := false
+				for _, g := range f.Blocks {
+					ifi, ok := g.Instrs[len(g.Instrs)-1].(*ssa.If)
+					if !ok {
+						continue
+					}
+					gc, ok := ifi.Cond.(*ssa.Call)
+					if !ok || staticCalleeName(gc) != "(*semver.Version).IsWildcard" || gc.Common().Args[0] != ver {
+						continue
+					}
+					if g.Succs[1] == b || g.Succs[1].Dominates(b) {
+						guarded = true
+					}
+				}
+				if guarded {
+					r.ok(rule, key, p.pos(c.Pos()), "dominated by the false side of IsWildcard on the same version")
+				} else {
+					r.bad(rule, key, p.pos(c.Pos()), "the matcher is reached without the IsWildcard test its sibling entry points make: a wildcard text such as \"1.x\", which parses as a version here but is a range, is matched like a version (it satisfies \"*\" and \"<1.0.0\")")
+				}
+			}
+		}
+	}
+	return n
+}
+
+// fourthZeroRule (C11.d NUGET-FOURTH-ZERO): the NuGet parser drops a fourth
+// number that is 0 (1.2.3.0 is 1.2.3), so that is the normal form every parsed
+// version is in. A function that writes zeros into the tail of a version
+// (setTail(marker, 0): the lower bound of "1.2.3.*") can produce the form the
+// parser never produces; the printed set then says 1.2.3.0, and parsing that
+// text and printing again says 1.2.3. Wherever setTail fills with 0, the same
+// function re-applies the rule: it re-slices the num field of that version.
+func fourthZeroRule(r *Report, p *Prog, rule string) int {
+	n := 0
+	for _, f := range p.Funcs {
+		if f.Pkg == nil || f.Blocks == nil || f.Synthetic != "" || f.Pkg.Pkg.Path() != modPrefix+"semver" {
+			continue
+		}
+		per := 0
+		for _, b := range f.Blocks {
+			for _, in := range b.Instrs {
+				c, ok := in.(*ssa.Call)
+				if !ok || staticCalleeName(c) != "(*semver.Version).setTail" || len(c.Common().Args) != 3 {
+					continue
+				}
+				k, ok := c.Common().Args[2].(*ssa.Const)
+				if !ok || k.Value == nil || k.Int64() != 0 {
+					continue
+				}
+				n++
+				per++
+				v := c.Common().Args[0]
+				key := fmt.Sprintf("%s: zero-filled tail #%d is put back into the parser's normal form", fnKey(f), per)
+				renorm := false
+				for _, b2 := range f.Blocks {
+					for _, in2 := range b2.Instrs {
+						st, ok := in2.(*ssa.Store)
+						if !ok {
+							continue
+						}
+						fa, ok := st.Addr.(*ssa.FieldAddr)
+						if !ok || !(fa.X == v || sameVar(fa.X, v)) {
+							continue
+						}
+						pt, ok := fa.X.Type().Underlying().(*types.Pointer)
+						if !ok || !strings.HasSuffix(pt.Elem().String(), "semver.Version") || pt.Elem().Underlying().(*types.Struct).Field(fa.Field).Name() != "num" {
+							continue
+						}
+						if _, isSlice := st.Val.(*ssa.Slice); isSlice {
+							renorm = true
+						}
+					}
+				}
+				if renorm {
+					r.ok(rule, key, p.pos(c.Pos()), "the num field of the same version is re-sliced in this function")
+				} else {
+					r.bad(rule, key, p.pos(c.Pos()), "the tail of a version is filled with zeros and left as it is: for NuGet a fourth number of 0 is a form the parser never produces (it drops it), so the lower bound of 1.2.3.* is printed 1.2.3.0 and the printed set, parsed and printed again, reads 1.2.3")
+				}
+			}
+		}
+	}
+	return n
+}
+
+// infinityReadableRule (C11.e INFINITY-READABLE): the span printer prints both
+// bounds through the same function, and that function prints ∞ for a number
+// that holds it. Either bound can: the upper one by construction, the lower one
+// when stepping past the largest number saturates (">1.<max>" is [1.∞.∞:...]).
+// Two structural necessary conditions of "the printed set parses":
+//
+//	(1) BOUNDS-AGREE: in parseSpan the two bounds of a vector are parsed with
+//	    the same allowInfinity argument (a contradiction rule: one call says ∞
+//	    can be in a printed bound, the other says it cannot);
+//	(2) UNIT-FINITE: a unit span is printed as a bare version. If parseSpan
+//	    reads that text with a parser that refuses ∞, then the constructor of
+//	    unit spans from computed bounds (newSpan) tests the point against the
+//	    infinity constant before it builds one.
+func infinityReadableRule(r *Report, p *Prog, rule string) int {
+	ps := p.lookupFn("(semver.System).parseSpan")
+	ns := p.lookupFn("semver.newSpan")
+	pk := p.pkg("semver")
+	if ps == nil || ns == nil || pk == nil {
+		r.bad(rule, "semver.parseSpan / semver.newSpan", "", "function not found: anchor lost")
+		return 0
+	}
+	cInf, _ := pk.Types.Scope().Lookup("infinity").(*types.Const)
+	cUnit, _ := pk.Types.Scope().Lookup("unit").(*types.Const)
+	if cInf == nil || cUnit == nil {
+		r.bad(rule, "semver.infinity / semver.unit", "", "constant not found: anchor lost")
+		return 0
+	}
+	n := 0
+	// (1)
+	type pcall struct {
+		c     *ssa.Call
+		allow bool
+	}
+	var calls []pcall
+	unitRefuses := false
+	for _, b := range ps.Blocks {
+		for _, in := range b.Instrs {
+			c, ok := in.(*ssa.Call)
+			if !ok {
+				continue
+			}
+			switch staticCalleeName(c) {
+			case "(semver.System).parse":
+				k, ok := c.Common().Args[len(c.Common().Args)-1].(*ssa.Const)
+				if !ok || k.Value == nil || k.Value.Kind() != constant.Bool {
+					r.bad(rule, fmt.Sprintf("%s: call of parse #%d", fnKey(ps), len(calls)+1), p.pos(c.Pos()), "allowInfinity is not a constant here (undecided)")
+					continue
+				}
+				calls = append(calls, pcall{c, constant.BoolVal(k.Value)})
+			case "(semver.System).Parse":
+				unitRefuses = true
+			}
+		}
+	}
+	anyTrue := false
+	for _, c := range calls {
+		anyTrue = anyTrue || c.allow
+	}
+	for i, c := range calls {
+		n++
+		key := fmt.Sprintf("%s: bound #%d is parsed like the other bound", fnKey(ps), i+1)
+		if c.allow || !anyTrue {
+			r.ok(rule, key, p.pos(c.c.Pos()), fmt.Sprintf("allowInfinity = %v, as for the other bound", c.allow))
+		} else {
+			r.bad(rule, key, p.pos(c.c.Pos()), "this bound is parsed with ∞ refused while the other bound of the same span is parsed with ∞ allowed: the printer prints ∞ in either (\">1.9223372036854775806\" prints {[1.∞.∞:∞.∞.∞]}), so the text of such a set does not parse")
+		}
+	}
+	// (2)
+	if !unitRefuses {
+		return n
+	}
+	tests := func(f *ssa.Function) []*ssa.BasicBlock {
+		var out []*ssa.BasicBlock
+		for _, b := range f.Blocks {
+			for _, in := range b.Instrs {
+				bo, ok := in.(*ssa.BinOp)
+				if !ok || (bo.Op != token.EQL && bo.Op != token.NEQ) {
+					continue
+				}
+				for _, o := range []ssa.Value{bo.X, bo.Y} {
+					if k, ok := o.(*ssa.Const); ok && k.Value != nil && k.Value.Kind() == constant.Int && constant.Compare(k.Value, token.EQL, cInf.Val()) {
+						out = append(out, b)
+					}
+				}
+			}
+		}
+		return out
+	}
+	var tblocks []*ssa.BasicBlock
+	tblocks = append(tblocks, tests(ns)...)
+	for _, b := range ns.Blocks {
+		for _, in := range b.Instrs {
+			if c, ok := in.(*ssa.Call); ok {
+				if sc := c.Common().StaticCallee(); sc != nil && sc.Pkg == ns.Pkg && sc.Blocks != nil && len(tests(sc)) > 0 {
+					tblocks = append(tblocks, b)
+				}
+			}
+		}
+	}
+	loops := naturalLoops(ns)
+	per := 0
+	for _, b := range ns.Blocks {
+		for _, in := range b.Instrs {
+			st, ok := in.(*ssa.Store)
+			if !ok {
+				continue
+			}
+			fa, ok := st.Addr.(*ssa.FieldAddr)
+			if !ok {
+				continue
+			}
+			pt, ok := fa.X.Type().Underlying().(*types.Pointer)
+			if !ok || !strings.HasSuffix(pt.Elem().String(), "semver.span") {
+				continue
+			}
+			if pt.Elem().Underlying().(*types.Struct).Field(fa.Field).Name() != "rank" {
+				continue
+			}
+			k, ok := st.Val.(*ssa.Const)
+			if !ok || k.Value == nil || !constant.Compare(k.Value, token.EQL, cUnit.Val()) {
+				continue
+			}
+			n++
+			per++
+			key := fmt.Sprintf("%s: unit span #%d is built from a point without ∞", fnKey(ns), per)
+			guarded := false
+			for _, t := range tblocks {
+				if t == b || t.Dominates(b) {
+					guarded = true
+				}
+				if l := innermostLoop(loops, t); l != nil && !l.body[b] && l.header.Dominates(b) {
+					guarded = true
+				}
+			}
+			if guarded {
+				r.ok(rule, key, p.pos(st.Pos()), "the numbers of the point are compared with the infinity constant before the unit is built")
+			} else {
+				r.bad(rule, key, p.pos(st.Pos()), "a unit span is printed as a bare version and parseSpan reads it with Parse, which refuses ∞; this unit is built without looking for ∞ in the point (\">9223372036854775806\" prints {∞.∞.∞}), so the text of such a set does not parse")
+			}
+		}
+	}
+	return n
 }
